@@ -502,5 +502,20 @@ mut("15-depth-counted-not-checked", "C15", "recursion:gated", (DEC, "	if d.depth
 mut("15-gzip-decoded-as-own-message", "C15", "recursion:gated", ("internal/mtproto/objects/types.go", "	t.Obj, err = d.DecodeNestedObject(obj)\n", "	t.Obj, err = tl.DecodeUnknownObject(obj)\n"))
 mut("15N-smaller-depth-limit", "C15", None, ("internal/encoding/tl/cursor_r.go", "const maxNesting = 1000", "const maxNesting = 256"))
 
+# --- seventh round --------------------------------------------------------------------------------------
+mut("01-depth-not-given-back", "C01", "depth:balanced", (DEC, "	d.depth++\n	defer func() { d.depth-- }()\n", "	d.depth++\n"))
+mut("15-depth-not-given-back", "C15", "depth:balanced", (DEC, "	d.depth++\n	defer func() { d.depth-- }()\n", "	d.depth++\n"))
+mut("03-msgkey-scratch-shared", "C03", "global-write", ("internal/mtproto/messages/messages.go", "func DeserializeEncrypted(data, authKey []byte) (*Encrypted, error) {\n", "var seedLastKey []byte\n\nfunc DeserializeEncrypted(data, authKey []byte) (*Encrypted, error) {\n	seedLastKey = append(seedLastKey[:0], authKey...)\n"))
+mut("07-wrong-kind-exit-wraps-nil", "C07", "abort-returns-error", (H, "		return errors.New(\"handshake: Need ServerDHParamsOk\")", "		return errors.Wrap(err, \"handshake: Need ServerDHParamsOk\")"))
+mut("08-mode-reader-concludes-eof", "C08", "eof-only-when-received", ("internal/mode/intermediate.go", "	if n != int(size) {\n", "	if n == 0 && size == 0 {\n		return nil, io.EOF\n	}\n	if n != int(size) {\n"))
+mut("14-tool-lstats-output-dir", "C14", "input-read-through-links", ("internal/cmd/tlgen/main.go", "	b, err := ioutil.ReadFile(tlfile)\n", "	if _, err := os.Lstat(tlfile); err != nil {\n		return fmt.Errorf(\"read schema file: %w\", err)\n	}\n	b, err := ioutil.ReadFile(tlfile)\n"))
+mut("16-container-preallocated", "C16", "make:make([]*messages.Encrypted, cap)", ("internal/mtproto/objects/types.go", "	arr := make([]*messages.Encrypted, 0)\n	for i := 0; i < count; i++ {", "	arr := make([]*messages.Encrypted, 0, count)\n	for i := 0; i < count; i++ {"))
+mut("17-retry-on-internal-error", "C17", "only-handled-errors-are-reissued", ("mtproto.go", "		realErr := RpcErrorToNative(r)\n\n		err = m.tryToProcessErr(realErr.(*ErrResponseCode))", "		if r.ErrorCode == 500 { //nolint:gomnd not magic\n			return m.makeRequest(data, expectedTypes...)\n		}\n		realErr := RpcErrorToNative(r)\n\n		err = m.tryToProcessErr(realErr.(*ErrResponseCode))"))
+mut("05-decrypt-truncates-first", "C05", "decrypt:validates-what-it-was-given", ("internal/aes_ige/aes.go", "	out := make([]byte, len(msg))\n	if err := c.doAES256IGEdecrypt(msg, out); err != nil {", "	whole := msg[:len(msg)&^15]\n	out := make([]byte, len(whole))\n	if err := c.doAES256IGEdecrypt(whole, out); err != nil {"))
+mut("12-temp-file-in-tmpdir", "C12", "temp-file-beside-the-target", ("internal/session/file.go", "	return ioutil.WriteFile(l.path, data, 0600)\n", "	tmp, err := ioutil.TempFile(os.TempDir(), \"session.*\")\n	if err != nil {\n		return err\n	}\n	if _, err = tmp.Write(data); err == nil {\n		err = tmp.Close()\n	}\n	if err != nil {\n		return err\n	}\n	return os.Rename(tmp.Name(), l.path)\n"))
+mut("12N-write-aside-and-rename", "C12", None, ("internal/session/file.go", "	return ioutil.WriteFile(l.path, data, 0600)\n", "	tmp, err := ioutil.TempFile(dir, filepath.Base(l.path)+\".*\")\n	if err != nil {\n		return err\n	}\n	defer os.Remove(tmp.Name())\n	if _, err = tmp.Write(data); err == nil {\n		err = tmp.Close()\n	}\n	if err != nil {\n		return err\n	}\n	return os.Rename(tmp.Name(), l.path)\n"))
+mut("11N-write-aside-and-rename", "C11", None, ("internal/session/file.go", "	return ioutil.WriteFile(l.path, data, 0600)\n", "	tmp, err := ioutil.TempFile(dir, filepath.Base(l.path)+\".*\")\n	if err != nil {\n		return err\n	}\n	defer os.Remove(tmp.Name())\n	if _, err = tmp.Write(data); err == nil {\n		err = tmp.Close()\n	}\n	if err != nil {\n		return err\n	}\n	return os.Rename(tmp.Name(), l.path)\n"))
+mut("15N-depth-given-back-by-hand", "C15", None, (DEC, "	d.depth++\n	defer func() { d.depth-- }()\n	if d.depth > maxNesting {\n		d.err = fmt.Errorf(\"values are nested deeper than %v levels\", maxNesting)\n		return\n	}\n", "	d.depth++\n	if d.depth > maxNesting {\n		d.err = fmt.Errorf(\"values are nested deeper than %v levels\", maxNesting)\n		return\n	}\n	d.decodeValueCounted(value)\n	d.depth--\n}\n\nfunc (d *Decoder) decodeValueCounted(value reflect.Value) {\n"))
+
 json.dump(M, open('/verif/selftest/mutations.json', 'w'), indent=1, ensure_ascii=False)
 print(len(M), "mutations")
